@@ -111,11 +111,17 @@ def rand_csv_cells(rng):
     n_samples = rng.randrange(2, 5)
     fkind = {f: rng.choice(["int", "float"]) for f in fields}
     cells, rows = [], None
+    # "subset" mode: slices share the periods but observe different subsets of the evaluation dates
+    # (incremental cells of different slices then share coordinates but not prev_evaluation_date)
+    subset = n_slices > 1 and rng.random() < 0.4
     for m in metas:
-        if rows is None or rng.random() < 0.5:
+        if rows is None or (not subset and rng.random() < 0.5):
             rows = gen.layout_daily(rng) if layout == "daily" else gen.layout_regular(
                 rng, shape="ragged" if layout == "ragged" else None)
-        for c in gen.cells_from_layout(rng, rows, m, kind=kind, fields=fields, vkind="int"):
+        use = rows
+        if subset:
+            use = [(ps, pe, sorted(rng.sample(evs, rng.randrange(1, len(evs) + 1)))) for ps, pe, evs in rows]
+        for c in gen.cells_from_layout(rng, use, m, kind=kind, fields=fields, vkind="int"):
             if stream == "cum-sample":
                 vals = {f: gen.rand_value(rng, "iarr" if fkind[f] == "int" else "farr", n_samples) for f in fields}
             else:
